@@ -76,67 +76,17 @@ theorem C06_double_release (a : ASt) (f f' : Nat → Bool) (r : Nat) :
 
 /-! ## C07 — per key one live routine, cancelled on removal, retried while wanted -/
 
-/-- **C07 (one running), full statement.** In every reachable state, two instances of one key
-generation that have passed their wait for the predecessor and not yet returned (`entered` or
-`running`) are the same instance: a replacement does not enter its function before every instance it
-replaces has returned — across `RestartRoutine`, `ResetRoutine`, `SetContext`, `SetKey`, retries,
-in any number and order. (A new generation starts only when the key was not in the set.) -/
-def one_running_per_key_full : Prop :=
-  ∀ (es : List Ev) (s : St), model.run model.init es = some s →
-    ∀ (g i j : Nat) (y : G) (x x' : Inst), s.gens[g]? = some y →
-      y.insts[i]? = some x → y.insts[j]? = some x' → x.st.active = true → x'.st.active = true → i = j
-
-/-- the minimal failing run (finding D17): `ResetRoutine` whose constructor returns a nil `Routine`,
-then `ResetRoutine` again while the first routine is still returning -/
-def d17Run : List Ev := [.config { rc := false, delay := false, retry := none },
-  .inv 0 (.setContext (some 1) false), .exec, .ret 0 .unit,
-  .inv 1 (.setKey 1 true), .exec, .ctor 1 1, .ret 1 (.dataExisted 1 false), .proceed 0 0, .cbin 0 0 0 1 1,
-  .nilnext 1,
-  .inv 2 (.resetRoutine 1), .exec, .ctor 1 2, .ret 2 (.existedReset true true),
-  .inv 3 (.resetRoutine 1), .exec, .ctor 1 3, .ret 3 (.existedReset true true),
-  .proceed 0 1, .cbin 1 0 1 1 3]
-
-theorem d17_witness :
-    ((model.run model.init d17Run).bind fun s => (s.gens[0]?).bind fun y => (y.insts[0]?).bind fun x =>
-      (y.insts[1]?).map fun x' => (x.st, x'.st)) = some (.running, .running) := by decide
-
-/-- **The full statement is false for the code as it is** (with a constructor that may return a nil
-`Routine`): the run `d17Run` has two instances of key 1 inside their routine function. -/
-theorem one_running_per_key_full_false : ¬ one_running_per_key_full := by
-  intro h
-  have hw := d17_witness
-  cases hr : model.run model.init d17Run with
-  | none => rw [hr] at hw; cases hw
-  | some s =>
-    rw [hr] at hw
-    simp only [Option.bind] at hw
-    cases hy : s.gens[0]? with
-    | none => rw [hy] at hw; cases hw
-    | some y =>
-      rw [hy] at hw
-      simp only [] at hw
-      cases hx : y.insts[0]? with
-      | none => rw [hx] at hw; cases hw
-      | some x =>
-        rw [hx] at hw
-        simp only [] at hw
-        cases hx' : y.insts[1]? with
-        | none => rw [hx'] at hw; cases hw
-        | some x' =>
-          rw [hx'] at hw
-          simp only [Option.map, Option.some.injEq, Prod.mk.injEq] at hw
-          have := h d17Run s hr 0 0 1 y x x' hy hx hx' (by rw [hw.1]; rfl) (by rw [hw.2]; rfl)
-          cases this
-
-/-- **C07 (one running), proved part**: the full statement for every run in which no constructor is
-told to return a nil `Routine` (`NoNil es`; excluded pattern: `ResetRoutine` building a record without
-routine between two routines — the keyed twin of D16). -/
-theorem one_running_per_key_partial (es : List Ev) (s : St) (hn : NoNil es)
-    (hr : model.run model.init es = some s)
+/-- **C07 (one running).** In every reachable state, two instances of one key generation that have
+passed their wait for the predecessor and not yet returned (`entered` or `running`) are the same
+instance: a replacement does not enter its function before every instance it replaces has returned
+— across `RestartRoutine`, `ResetRoutine` (also with constructors that return a nil `Routine`: D18-keyed,
+fixed), `SetContext`, `SetKey`, retries, in any number and order. (A new generation starts only when
+the key was not in the set.) -/
+theorem one_running_per_key (es : List Ev) (s : St) (hr : model.run model.init es = some s)
     (g i j : Nat) (y : G) (x x' : Inst) (hy : s.gens[g]? = some y)
     (hx : y.insts[i]? = some x) (hx' : y.insts[j]? = some x')
     (ha : x.st.active = true) (ha' : x'.st.active = true) : i = j := by
-  have hK := kinv_reachable es s hn hr
+  have hK := kinv_reachable s ⟨es, hr⟩
   apply Chain.one_running (proj y) (hK.chain g y hy) i j (projI x) (projI x')
   · simp [proj_get, hx]
   · simp [proj_get, hx']
@@ -146,15 +96,11 @@ theorem one_running_per_key_partial (es : List Ev) (s : St) (hn : NoNil es)
 /-- **C07 (removal cancels).** In every reachable state an instance whose context is not cancelled
 belongs to the generation of the record stored under its key, and that record holds its cancel
 function; a context is set. Hence after the event that deletes the key (at once or by its timer)
-every instance of that generation is cancelled, and after `ClearContext` every instance is.
-(`_partial`: proved for runs without nil-routine constructors, because the proof goes through the
-chain invariant; the statement itself does not depend on the hand-over and is expected to hold for all
-runs — not proved.) -/
-theorem removed_cancelled_partial (es : List Ev) (s : St) (hn : NoNil es)
-    (hr : model.run model.init es = some s)
+every instance of that generation is cancelled, and after `ClearContext` every instance is. -/
+theorem removed_cancelled (es : List Ev) (s : St) (hr : model.run model.init es = some s)
     (g i : Nat) (y : G) (x : Inst) (hy : s.gens[g]? = some y) (hx : y.insts[i]? = some x) :
     (¬ Alive s g → x.cancelled = true) ∧ (s.ctx = none → x.cancelled = true) := by
-  have h3 := inv3_reachable es s hn hr
+  have h3 := inv3_reachable s ⟨es, hr⟩
   refine ⟨?_, ?_⟩
   · intro hd
     cases hc : x.cancelled with
@@ -168,13 +114,12 @@ theorem removed_cancelled_partial (es : List Ev) (s : St) (hn : NoNil es)
     | false => have := h3.ownc g y i x hy hx hc; simp [hnc] at this
 
 /-- the event that takes the record of a generation out of the map leaves the generation without a
-record (`_partial`: runs without nil-routine constructors, as above) -/
-theorem removed_dead_partial (es : List Ev) (s s' : St) (e : Ev) (hn : NoNil (es ++ [e]))
-    (hr : model.run model.init es = some s)
+record -/
+theorem removed_dead (es : List Ev) (s s' : St) (e : Ev) (hr : model.run model.init es = some s)
     (hs : model.step s e = some s') (k : Nat) (r : Rec) (hk : s.key k = some r)
     (hk' : ∀ r', s'.key k = some r' → r'.gen ≠ r.gen) : ¬ Alive s' r.gen := by
-  have hK := kinv_reachable es s (fun e' he' => hn e' (by simp [he'])) hr
-  have hK' := kinv_step s s' e hK hs (hn e (by simp))
+  have hK := kinv_reachable s ⟨es, hr⟩
+  have hK' := kinv_step s s' e hK hs
   have hG := grow_step s s' e hs
   rintro ⟨k', r', hr', hg⟩
   obtain ⟨y, hy, hyk⟩ := hK.genKey k r hk
@@ -217,15 +162,14 @@ theorem retry_pending_other_key (s : St) (k k' : Nat) (st : Bool) (hkk : k ≠ k
    retry_kept_restart_other s k k' hkk hp, retry_kept_reset_other s k k' hkk hp⟩
 
 /-- … and once the epoch has ended the timer's step is enabled and, with a context, starts a new
-instance (waiting for its predecessor, not cancelled). (For runs without nil-routine constructors: a
-record without routine is never started.) -/
-theorem retry_pending_fires (es : List Ev) (s : St) (hn : NoNil es) (hr : model.run model.init es = some s)
+instance (waiting for its predecessor, not cancelled). -/
+theorem retry_pending_fires (es : List Ev) (s : St) (hr : model.run model.init es = some s)
     (k e : Nat) (r : Rec) (hk : s.key k = some r) (hex : r.exited = true) (hd : r.deferRetry = some e)
     (he : e < s.epoch) (hctx : s.ctx.isSome = true) :
     ∃ s' r' i y x, model.step s (.timerRetry k) = some s' ∧ s'.key k = some r' ∧ r'.exited = false ∧
       r'.cur = some i ∧ s'.gens[r'.gen]? = some y ∧ y.insts[i]? = some x ∧ x.st = .waiting ∧
       x.cancelled = false :=
-  retry_fires s k e r (kinv_reachable es s hn hr) hk hex hd he hctx
+  retry_fires s k e r (kinv_reachable s ⟨es, hr⟩) hk hex hd he hctx
 
 /-! ## the hypotheses are satisfiable / the model does something -/
 
@@ -262,5 +206,18 @@ example : (model.run model.init [.config { rc := false, delay := false, retry :=
     .inv 2 (.restartRoutine 1), .exec, .ret 2 (.existedReset true true),
     .inv 3 (.restartRoutine 1), .exec, .ret 3 (.existedReset true true),
     .bail 0 1, .proceed 0 2]).isSome = false := by decide
+
+/-- regression for D18-keyed (fixed in /repo a27bd68): `ResetRoutine` with a nil `Routine`, then
+`ResetRoutine` again while the first routine is still running — the new instance waits (its `proceed`
+is not enabled), and it is enabled once the first instance has returned and closed its channel -/
+private def d18Prefix : List Ev := [.config { rc := false, delay := false, retry := none },
+  .inv 0 (.setContext (some 1) false), .exec, .ret 0 .unit,
+  .inv 1 (.setKey 1 true), .exec, .ctor 1 1, .ret 1 (.dataExisted 1 false), .proceed 0 0, .cbin 0 0 0 1 1,
+  .nilnext 1,
+  .inv 2 (.resetRoutine 1), .exec, .ctor 1 2, .ret 2 (.existedReset true true),
+  .inv 3 (.resetRoutine 1), .exec, .ctor 1 3, .ret 3 (.existedReset true true)]
+example : (model.run model.init (d18Prefix ++ [.proceed 0 1])).isSome = false := by decide
+example : (model.run model.init (d18Prefix ++ [.cbout 0 .canceled, .closeExit 0 0, .proceed 0 1, .cbin 1 0 1 1 3])).isSome = true := by
+  decide
 
 end UtilModel.Keyed
